@@ -18,6 +18,9 @@ pub struct WorkerLog {
     pub t_open_ret: u64,
     pub t_closing: u64,
     pub seen: Vec<String>,
+    /// large values this opener committed while it held the database: (key, length)
+    #[serde(default)]
+    pub big: Vec<(String, usize)>,
 }
 
 fn now_ns() -> u64 {
@@ -38,6 +41,43 @@ pub fn worker(ctx: &Ctx) {
     if delay_us > 0 {
         std::thread::sleep(std::time::Duration::from_micros(delay_us));
     }
+    if let Some(exp) = ctx.get("verify") {
+        // last look after every opener has gone: everything that was committed must be there
+        let mut log = WorkerLog { id, outcome: "ok".into(), detail: String::new(), t_call: now_ns(), t_open_ret: 0, t_closing: 0, seen: vec![], big: vec![] };
+        let expect: Vec<(String, usize, u8)> = std::fs::read(exp).ok().and_then(|b| serde_json::from_slice(&b).ok()).unwrap_or_default();
+        let r = util::catch(|| -> Result<(), String> {
+            let db = OpenOptions::new().pagesize(1024).num_pages(8).open(&path).map_err(|e| format!("open: {}", e))?;
+            db.check().map_err(|e| format!("DB::check: {}", e))?;
+            let tx = db.tx(false).map_err(|e| format!("tx: {}", e))?;
+            if let Ok(b) = tx.get_bucket("markers") {
+                for kv in b.kv_pairs() {
+                    log.seen.push(String::from_utf8_lossy(kv.key()).to_string());
+                }
+            }
+            for (k, len, byte) in &expect {
+                let b = tx.get_bucket("big").map_err(|e| format!("bucket big: {}", e))?;
+                match b.get_kv(k.as_bytes()) {
+                    Some(kv) if kv.value().len() == *len && kv.value().iter().all(|x| x == byte) => {}
+                    Some(kv) => return Err(format!("value of {} has {} bytes (expected {}) or wrong content", k, kv.value().len(), len)),
+                    None => return Err(format!("{} is missing", k)),
+                }
+            }
+            Ok(())
+        });
+        match r {
+            Ok(Ok(())) => {}
+            Ok(Err(e)) => {
+                log.outcome = "error".into();
+                log.detail = e;
+            }
+            Err(p) => {
+                log.outcome = "panic".into();
+                log.detail = format!("{}:{}: {}", p.file, p.line, p.msg);
+            }
+        }
+        let _ = std::fs::write(&out, serde_json::to_vec(&log).unwrap());
+        return;
+    }
     let fail_init = ctx.get("fail_init").is_some();
     if fail_init {
         // this opener cannot extend files: creating / initialising the database fails for it
@@ -57,7 +97,7 @@ pub fn worker(ctx: &Ctx) {
             libc::sigaction(libc::SIGUSR1, &sa, std::ptr::null_mut());
         }
     }
-    let mut log = WorkerLog { id, outcome: "ok".into(), detail: String::new(), t_call: now_ns(), t_open_ret: 0, t_closing: 0, seen: vec![] };
+    let mut log = WorkerLog { id, outcome: "ok".into(), detail: String::new(), t_call: now_ns(), t_open_ret: 0, t_closing: 0, seen: vec![], big: vec![] };
     let r = util::catch(|| -> Result<(), String> {
         let db = loop {
             match OpenOptions::new().pagesize(1024).num_pages(8).direct_writes(ctx.get("direct").is_some()).open(&path) {
@@ -98,7 +138,25 @@ pub fn worker(ctx: &Ctx) {
         if hold_us > 0 {
             std::thread::sleep(std::time::Duration::from_micros(hold_us));
         }
+        // commits that extend the file while this process holds the database (and others may be queued on the
+        // lock): the first needs one extension step, each further one is larger than the step before it
+        let grow: usize = ctx.get("grow").and_then(|s| s.parse().ok()).unwrap_or(0);
+        for k in 0..grow {
+            let len = if k == 0 { 1 << 20 } else { (9 << 20) + (k << 20) };
+            let key = format!("big-{}-{}", id, k);
+            let tx = db.tx(true).map_err(|e| format!("tx: {}", e))?;
+            {
+                let b = tx.get_or_create_bucket("big").map_err(|e| format!("{}", e))?;
+                b.put(key.clone(), vec![id as u8 + 1; len]).map_err(|e| format!("{}", e))?;
+            }
+            tx.commit().map_err(|e| format!("growing commit: {}", e))?;
+            log.big.push((key, len));
+            std::thread::sleep(std::time::Duration::from_micros(500));
+        }
         db.check().map_err(|e| format!("DB::check: {}", e))?;
+        if let Some(tok) = ctx.get("done_token") {
+            let _ = std::fs::write(tok, b"done");
+        }
         log.t_closing = now_ns();
         // write the log BEFORE the handle is dropped: with correct locking the intervals are disjoint
         std::fs::write(&out, serde_json::to_vec(&log).unwrap()).map_err(|e| e.to_string())?;
@@ -143,6 +201,12 @@ pub struct Proc {
     /// this opener uses `direct_writes(true)` (another descriptor mode for the same file and the same lock)
     #[serde(default)]
     pub direct: bool,
+    /// this opener commits that many file-extending transactions while it holds the database
+    #[serde(default)]
+    pub grow: u32,
+    /// token this opener writes when all its commits are done (just before it closes the database)
+    #[serde(default)]
+    pub done: String,
 }
 
 #[derive(Serialize, Deserialize, Debug, Clone)]
@@ -164,7 +228,7 @@ pub fn forced_cases(thorough: bool) -> Vec<Case> {
                 continue; // an existing file is not written during open
             }
             for b_waits_for in [None, Some("before_mmap#0")] {
-                let a = Proc { direct: false, alias: false, signals: 0, fail_init: false, soft_ms: 0, delay_us: 0, hold_us: 300, gates: vec![(ap.to_string(), "B-opened".into(), format!("A-at-{}", ai)), ("before_mmap#0".into(), String::new(), "A-at-mmap".into())] };
+                let a = Proc { grow: 0, done: String::new(), direct: false, alias: false, signals: 0, fail_init: false, soft_ms: 0, delay_us: 0, hold_us: 300, gates: vec![(ap.to_string(), "B-opened".into(), format!("A-at-{}", ai)), ("before_mmap#0".into(), String::new(), "A-at-mmap".into())] };
                 let mut bg = vec![("after_open#0".to_string(), String::new(), "B-opened".to_string())];
                 if let Some(p) = b_waits_for {
                     if *ap == p {
@@ -173,16 +237,16 @@ pub fn forced_cases(thorough: bool) -> Vec<Case> {
                     // B continues past its open64 only after A has reached its mmap (i.e. holds the lock in correct code)
                     bg = vec![("after_open#0".to_string(), "A-at-mmap".to_string(), "B-opened".to_string())];
                     // then A must not wait for B (it would never come): A only signals
-                    let a2 = Proc { direct: false, alias: false, signals: 0, fail_init: false, soft_ms: 0, delay_us: 0, hold_us: 2000, gates: vec![(ap.to_string(), String::new(), format!("A-at-{}", ai)), ("before_mmap#0".into(), String::new(), "A-at-mmap".into())] };
-                    v.push(Case { label: format!("existing={} A passes {}; B held after its open64 until A maps", existing, ap), existing, procs: vec![a2, Proc { direct: false, alias: false, signals: 0, fail_init: false, soft_ms: 0, delay_us: 100, hold_us: 100, gates: bg }] });
+                    let a2 = Proc { grow: 0, done: String::new(), direct: false, alias: false, signals: 0, fail_init: false, soft_ms: 0, delay_us: 0, hold_us: 2000, gates: vec![(ap.to_string(), String::new(), format!("A-at-{}", ai)), ("before_mmap#0".into(), String::new(), "A-at-mmap".into())] };
+                    v.push(Case { label: format!("existing={} A passes {}; B held after its open64 until A maps", existing, ap), existing, procs: vec![a2, Proc { grow: 0, done: String::new(), direct: false, alias: false, signals: 0, fail_init: false, soft_ms: 0, delay_us: 100, hold_us: 100, gates: bg }] });
                     continue;
                 }
-                v.push(Case { label: format!("existing={} A held at {} until B's open64 returned", existing, ap), existing, procs: vec![a, Proc { direct: false, alias: false, signals: 0, fail_init: false, soft_ms: 0, delay_us: 200, hold_us: 100, gates: bg.clone() }] });
+                v.push(Case { label: format!("existing={} A held at {} until B's open64 returned", existing, ap), existing, procs: vec![a, Proc { grow: 0, done: String::new(), direct: false, alias: false, signals: 0, fail_init: false, soft_ms: 0, delay_us: 200, hold_us: 100, gates: bg.clone() }] });
                 if thorough || ai % 2 == 0 {
                     // three processes: C arrives while A is held as well
-                    let a3 = Proc { direct: false, alias: false, signals: 0, fail_init: false, soft_ms: 0, delay_us: 0, hold_us: 300, gates: vec![(ap.to_string(), "C-opened".into(), format!("A-at-{}", ai))] };
-                    let b3 = Proc { direct: false, alias: false, signals: 0, fail_init: false, soft_ms: 0, delay_us: 150, hold_us: 200, gates: vec![("after_open#0".into(), String::new(), "B-opened".into())] };
-                    let c3 = Proc { direct: false, alias: false, signals: 0, fail_init: false, soft_ms: 0, delay_us: 300, hold_us: 100, gates: vec![("after_open#0".into(), "B-opened".into(), "C-opened".into())] };
+                    let a3 = Proc { grow: 0, done: String::new(), direct: false, alias: false, signals: 0, fail_init: false, soft_ms: 0, delay_us: 0, hold_us: 300, gates: vec![(ap.to_string(), "C-opened".into(), format!("A-at-{}", ai))] };
+                    let b3 = Proc { grow: 0, done: String::new(), direct: false, alias: false, signals: 0, fail_init: false, soft_ms: 0, delay_us: 150, hold_us: 200, gates: vec![("after_open#0".into(), String::new(), "B-opened".into())] };
+                    let c3 = Proc { grow: 0, done: String::new(), direct: false, alias: false, signals: 0, fail_init: false, soft_ms: 0, delay_us: 300, hold_us: 100, gates: vec![("after_open#0".into(), "B-opened".into(), "C-opened".into())] };
                     v.push(Case { label: format!("existing={} three processes, A held at {} until B and C called open64", existing, ap), existing, procs: vec![a3, b3, c3] });
                 }
             }
@@ -193,49 +257,67 @@ pub fn forced_cases(thorough: bool) -> Vec<Case> {
     // the size is read the second opener cannot get that far, the soft timeout expires and the run
     // proceeds normally; if the size is read outside the exclusive lock the ordering happens.
     for existing in [false] {
-        let a = Proc { direct: false, alias: false, signals: 0, fail_init: false, soft_ms: 300, delay_us: 0, hold_us: 200, gates: vec![("after_stat#0".into(), "B-looked".into(), "A-looked".into())] };
-        let b = Proc { direct: false, alias: false, signals: 0, fail_init: false, soft_ms: 300, delay_us: 150, hold_us: 200, gates: vec![("after_stat#0".into(), "A-looked".into(), "B-looked".into())] };
+        let a = Proc { grow: 0, done: String::new(), direct: false, alias: false, signals: 0, fail_init: false, soft_ms: 300, delay_us: 0, hold_us: 200, gates: vec![("after_stat#0".into(), "B-looked".into(), "A-looked".into())] };
+        let b = Proc { grow: 0, done: String::new(), direct: false, alias: false, signals: 0, fail_init: false, soft_ms: 300, delay_us: 150, hold_us: 200, gates: vec![("after_stat#0".into(), "A-looked".into(), "B-looked".into())] };
         v.push(Case { label: "two openers both look at the empty file's size before either initialises it".into(), existing, procs: vec![a.clone(), b.clone()] });
-        let c = Proc { direct: false, alias: false, signals: 0, fail_init: false, soft_ms: 300, delay_us: 250, hold_us: 100, gates: vec![("after_stat#0".into(), "B-looked".into(), "C-looked".into())] };
+        let c = Proc { grow: 0, done: String::new(), direct: false, alias: false, signals: 0, fail_init: false, soft_ms: 300, delay_us: 250, hold_us: 100, gates: vec![("after_stat#0".into(), "B-looked".into(), "C-looked".into())] };
         v.push(Case { label: "three openers all look at the empty file's size before any initialises it".into(), existing, procs: vec![a, b, c] });
-        let a2 = Proc { direct: false, alias: false, signals: 0, fail_init: false, soft_ms: 400, delay_us: 0, hold_us: 100, gates: vec![("after_stat#0".into(), "B-closing".into(), "A-looked".into())] };
-        let b2 = Proc { direct: false, alias: false, signals: 0, fail_init: false, soft_ms: 0, delay_us: 300, hold_us: 100, gates: vec![("before_close#0".into(), String::new(), "B-closing".into())] };
+        let a2 = Proc { grow: 0, done: String::new(), direct: false, alias: false, signals: 0, fail_init: false, soft_ms: 400, delay_us: 0, hold_us: 100, gates: vec![("after_stat#0".into(), "B-closing".into(), "A-looked".into())] };
+        let b2 = Proc { grow: 0, done: String::new(), direct: false, alias: false, signals: 0, fail_init: false, soft_ms: 0, delay_us: 300, hold_us: 100, gates: vec![("before_close#0".into(), String::new(), "B-closing".into())] };
         v.push(Case { label: "an opener that has seen an empty file is held until another opener has created, used and closed the database".into(), existing, procs: vec![a2, b2] });
         // an opener whose initialisation fails (file-size limit) while a second one is queued on the lock and a
         // third arrives later: the failure of the first must not let the other two in together
-        let x = Proc { direct: false, alias: false, signals: 0, fail_init: true, soft_ms: 300, delay_us: 0, hold_us: 0, gates: vec![("after_stat#0".into(), "Y-opened".into(), "X-looked".into())] };
-        let y = Proc { direct: false, alias: false, signals: 0, fail_init: false, soft_ms: 0, delay_us: 300, hold_us: 4000, gates: vec![("after_open#0".into(), String::new(), "Y-opened".into())] };
-        let z = Proc { direct: false, alias: false, signals: 0, fail_init: false, soft_ms: 0, delay_us: 2500, hold_us: 300, gates: vec![] };
+        let x = Proc { grow: 0, done: String::new(), direct: false, alias: false, signals: 0, fail_init: true, soft_ms: 300, delay_us: 0, hold_us: 0, gates: vec![("after_stat#0".into(), "Y-opened".into(), "X-looked".into())] };
+        let y = Proc { grow: 0, done: String::new(), direct: false, alias: false, signals: 0, fail_init: false, soft_ms: 0, delay_us: 300, hold_us: 4000, gates: vec![("after_open#0".into(), String::new(), "Y-opened".into())] };
+        let z = Proc { grow: 0, done: String::new(), direct: false, alias: false, signals: 0, fail_init: false, soft_ms: 0, delay_us: 2500, hold_us: 300, gates: vec![] };
         v.push(Case { label: "the first opener fails to initialise the file while a second is queued on the lock; a third arrives later".into(), existing, procs: vec![x, y, z] });
     }
     // an opener held just BEFORE its open(2) of the path (after anything it may have learnt about the path
     // earlier) until another opener has created the database, committed to it and is about to close it
     {
-        let b = Proc { direct: false, alias: false, signals: 0, fail_init: false, soft_ms: 0, delay_us: 0, hold_us: 100, gates: vec![("before_open#0".into(), "A-closing".into(), "B-parked".into())] };
-        let a = Proc { direct: false, alias: false, signals: 0, fail_init: false, soft_ms: 0, delay_us: 0, hold_us: 300, gates: vec![("before_open#0".into(), "B-parked".into(), String::new()), ("before_close#0".into(), String::new(), "A-closing".into())] };
+        let b = Proc { grow: 0, done: String::new(), direct: false, alias: false, signals: 0, fail_init: false, soft_ms: 0, delay_us: 0, hold_us: 100, gates: vec![("before_open#0".into(), "A-closing".into(), "B-parked".into())] };
+        let a = Proc { grow: 0, done: String::new(), direct: false, alias: false, signals: 0, fail_init: false, soft_ms: 0, delay_us: 0, hold_us: 300, gates: vec![("before_open#0".into(), "B-parked".into(), String::new()), ("before_close#0".into(), String::new(), "A-closing".into())] };
         v.push(Case { label: "an opener is held before its open(2) of a path that does not exist yet until another has created, used and is closing the database".into(), existing: false, procs: vec![b.clone(), a.clone()] });
         // the same while the creator is still in the middle of initialising the file
-        let a2 = Proc { direct: false, alias: false, signals: 0, fail_init: false, soft_ms: 0, delay_us: 0, hold_us: 2000, gates: vec![("before_open#0".into(), "B-parked".into(), String::new()), ("after_write#0".into(), String::new(), "A-closing".into())] };
+        let a2 = Proc { grow: 0, done: String::new(), direct: false, alias: false, signals: 0, fail_init: false, soft_ms: 0, delay_us: 0, hold_us: 2000, gates: vec![("before_open#0".into(), "B-parked".into(), String::new()), ("after_write#0".into(), String::new(), "A-closing".into())] };
         v.push(Case { label: "an opener is held before its open(2) of a path that does not exist yet until another is initialising the file".into(), existing: false, procs: vec![b, a2] });
     }
     // a holder that stays inside for seconds: the second opener must wait that long, not give up and not walk in
     {
-        let a = Proc { direct: false, alias: false, signals: 0, fail_init: false, soft_ms: 0, delay_us: 0, hold_us: 3_000_000, gates: vec![("before_mmap#0".into(), String::new(), "A-at-mmap".into())] };
-        let b = Proc { direct: false, alias: false, signals: 0, fail_init: false, soft_ms: 0, delay_us: 0, hold_us: 100, gates: vec![("before_open#0".into(), "A-at-mmap".into(), String::new())] };
+        let a = Proc { grow: 0, done: String::new(), direct: false, alias: false, signals: 0, fail_init: false, soft_ms: 0, delay_us: 0, hold_us: 3_000_000, gates: vec![("before_mmap#0".into(), String::new(), "A-at-mmap".into())] };
+        let b = Proc { grow: 0, done: String::new(), direct: false, alias: false, signals: 0, fail_init: false, soft_ms: 0, delay_us: 0, hold_us: 100, gates: vec![("before_open#0".into(), "A-at-mmap".into(), String::new())] };
         v.push(Case { label: "the holder keeps the database for three seconds while a second opener is queued".into(), existing: true, procs: vec![a, b] });
     }
     // the holder (or the newcomer) opened with direct_writes(true)
     for (existing, a_direct, b_direct) in [(true, true, false), (false, true, false), (true, false, true), (true, true, true)] {
-        let a = Proc { direct: a_direct, alias: false, signals: 0, fail_init: false, soft_ms: 0, delay_us: 0, hold_us: 20_000, gates: vec![("before_mmap#0".into(), String::new(), "A-at-mmap".into())] };
-        let b = Proc { direct: b_direct, alias: false, signals: 0, fail_init: false, soft_ms: 0, delay_us: 0, hold_us: 100, gates: vec![("before_open#0".into(), "A-at-mmap".into(), String::new())] };
+        let a = Proc { grow: 0, done: String::new(), direct: a_direct, alias: false, signals: 0, fail_init: false, soft_ms: 0, delay_us: 0, hold_us: 20_000, gates: vec![("before_mmap#0".into(), String::new(), "A-at-mmap".into())] };
+        let b = Proc { grow: 0, done: String::new(), direct: b_direct, alias: false, signals: 0, fail_init: false, soft_ms: 0, delay_us: 0, hold_us: 100, gates: vec![("before_open#0".into(), "A-at-mmap".into(), String::new())] };
         v.push(Case { label: format!("existing={} holder direct_writes={} while a second opener (direct_writes={}) arrives", existing, a_direct, b_direct), existing, procs: vec![a, b] });
     }
     // an opener queued on the lock is hit by signals (handler without SA_RESTART); it retries interrupted opens
     for (existing, n) in [(true, 2u32), (false, 3), (true, 6)] {
-        let a = Proc { direct: false, alias: false, signals: 0, fail_init: false, soft_ms: 0, delay_us: 0, hold_us: 25_000, gates: vec![("before_mmap#0".into(), String::new(), "A-at-mmap".into())] };
+        let a = Proc { grow: 0, done: String::new(), direct: false, alias: false, signals: 0, fail_init: false, soft_ms: 0, delay_us: 0, hold_us: 25_000, gates: vec![("before_mmap#0".into(), String::new(), "A-at-mmap".into())] };
         // (B reports that it is parked at its gate - its signal handler is installed by then - before any signal is sent)
-        let b = Proc { direct: false, alias: false, signals: n, fail_init: false, soft_ms: 0, delay_us: 0, hold_us: 100, gates: vec![("before_open#0".into(), "A-at-mmap".into(), "B-parked".into())] };
+        let b = Proc { grow: 0, done: String::new(), direct: false, alias: false, signals: n, fail_init: false, soft_ms: 0, delay_us: 0, hold_us: 100, gates: vec![("before_open#0".into(), "A-at-mmap".into(), "B-parked".into())] };
         v.push(Case { label: format!("existing={} an opener queued on the lock receives {} signals", existing, n), existing, procs: vec![a, b] });
+    }
+    // the holder EXTENDS the file (1-3 times) while a second (and third) opener is queued on the lock: the lock must
+    // be held through every step of a growing commit, and through everything closing the database does
+    for (existing, ga, gb, three, a_direct) in [(true, 1u32, 0u32, false, false), (false, 2, 1, false, false), (true, 3, 1, true, false), (true, 2, 0, false, true), (false, 1, 1, true, false)] {
+        let a = Proc { grow: ga, done: String::new(), direct: a_direct, alias: false, signals: 0, fail_init: false, soft_ms: 0, delay_us: 0, hold_us: 20_000, gates: vec![("before_mmap#0".into(), String::new(), "A-at-mmap".into())] };
+        let b = Proc { grow: gb, done: String::new(), direct: false, alias: false, signals: 0, fail_init: false, soft_ms: 0, delay_us: 0, hold_us: 100, gates: vec![("before_open#0".into(), "A-at-mmap".into(), String::new())] };
+        let mut procs = vec![a, b.clone()];
+        if three {
+            procs.push(Proc { alias: true, grow: 1, ..b.clone() });
+        }
+        v.push(Case { label: format!("existing={} the holder (direct_writes={}) extends the file {} time(s) while {} opener(s) are queued; the next extends it {} time(s)", existing, a_direct, ga, procs.len() - 1, gb), existing, procs });
+    }
+    // whatever closing does after the lock is gone must not touch the file: if the holder that extended the file
+    // ever truncates it while closing, it is held there until the next opener has committed and is about to close
+    for existing in [true, false] {
+        let a = Proc { grow: 1, done: String::new(), direct: false, alias: false, signals: 0, fail_init: false, soft_ms: 0, delay_us: 0, hold_us: 10_000, gates: vec![("before_mmap#0".into(), String::new(), "A-at-mmap".into()), ("before_truncate#0".into(), "B-done".into(), String::new())] };
+        let b = Proc { grow: 1, done: "B-done".into(), direct: false, alias: false, signals: 0, fail_init: false, soft_ms: 0, delay_us: 0, hold_us: 100, gates: vec![("before_open#0".into(), "A-at-mmap".into(), String::new())] };
+        v.push(Case { label: format!("existing={} a holder that extended the file closes while the next opener (which extends it again) is queued", existing), existing, procs: vec![a, b] });
     }
     v
 }
@@ -244,10 +326,11 @@ pub struct Outcome {
     pub violations: Vec<(String, String)>,
     pub inconclusive: Option<String>,
     pub waited: bool,
+    pub verified: bool,
 }
 
 pub fn run_case(c: &Case, dir: &Path, exe: &Path, shim: &str, n: u64) -> Outcome {
-    let mut o = Outcome { violations: vec![], inconclusive: None, waited: false };
+    let mut o = Outcome { violations: vec![], inconclusive: None, waited: false, verified: false };
     let sub = dir.join(format!("case-{}", n));
     let _ = std::fs::remove_dir_all(&sub);
     std::fs::create_dir_all(&sub).expect("case dir");
@@ -304,6 +387,12 @@ pub fn run_case(c: &Case, dir: &Path, exe: &Path, shim: &str, n: u64) -> Outcome
         }
         if p.direct {
             cmd.args(["--set", "direct=1"]);
+        }
+        if p.grow > 0 {
+            cmd.args(["--set", &format!("grow={}", p.grow)]);
+        }
+        if !p.done.is_empty() {
+            cmd.args(["--set", &format!("done_token={}", sub.join(&p.done).display())]);
         }
         if !p.gates.is_empty() || p.fail_init {
             cmd.env("LD_PRELOAD", shim).env("VERIF_DBPATH", db.display().to_string()).env("VERIF_GATES", gates.join(";"));
@@ -407,6 +496,43 @@ pub fn run_case(c: &Case, dir: &Path, exe: &Path, shim: &str, n: u64) -> Outcome
             ));
         }
     }
+    // when everybody has gone: one more opener must find every marker and every large value that was committed
+    if !hung && !timeouts && o.violations.is_empty() && logs.len() == c.procs.len() {
+        let expect: Vec<(String, usize, u8)> = ok.iter().flat_map(|l| l.big.iter().map(|(k, n)| (k.clone(), *n, l.id as u8 + 1)).collect::<Vec<_>>()).collect();
+        let ef = sub.join("expect.json");
+        let vf = sub.join("verify.json");
+        let _ = std::fs::write(&ef, serde_json::to_vec(&expect).unwrap());
+        let st = std::process::Command::new(exe)
+            .args(["c13-worker", "--set", &format!("path={}", db.display()), "--set", "id=98", "--set", &format!("log={}", vf.display()), "--set", &format!("verify={}", ef.display())])
+            .env_remove("LD_PRELOAD")
+            .stdout(std::process::Stdio::null())
+            .stderr(std::process::Stdio::null())
+            .status();
+        let vl = std::fs::read(&vf).ok().and_then(|b| serde_json::from_slice::<WorkerLog>(&b).ok());
+        match (st, vl) {
+            (Ok(s), Some(l)) if s.success() => {
+                let mut want: Vec<String> = ok.iter().map(|p| format!("m-{}", p.id)).collect();
+                if c.existing {
+                    want.push("m-99".into());
+                }
+                want.sort();
+                let mut seen = l.seen.clone();
+                seen.sort();
+                if l.outcome != "ok" {
+                    o.violations.push((format!("after-all-closed:{}", l.outcome), format!("[{}] an opener that comes when everybody has gone: {}", c.label, l.detail)));
+                } else if seen != want {
+                    o.violations.push(("after-all-closed:markers".into(), format!("[{}] an opener that comes when everybody has gone sees markers {:?}, expected {:?}", c.label, seen, want)));
+                }
+                o.verified = true;
+            }
+            (Ok(s), _) if !s.success() && s.code().is_none() => {
+                o.violations.push(("after-all-closed:opener-died".into(), format!("[{}] an opener that comes when everybody has gone was killed ({:?})", c.label, s)));
+            }
+            (st, _) => {
+                o.inconclusive = Some(format!("[{}] the final verifier could not be run ({:?})", c.label, st.map(|s| s.code())));
+            }
+        }
+    }
     if (hung || timeouts) && o.violations.is_empty() {
         o.inconclusive = Some(format!("[{}] watchdog fired (hung={}, gate timeout={})", c.label, hung, timeouts));
     }
@@ -430,11 +556,11 @@ pub fn run(ctx: &Ctx) -> Shard {
             }
         }
         let mut rng = Rng::new(ctx.shard_seed());
-        let n = ctx.scale(if ctx.thorough() { 250 } else { 20 });
+        let n = ctx.scale(if ctx.thorough() { 250 } else { 60 });
         for _ in 0..n {
             let k = 2 + rng.usize(2);
             let existing = rng.chance(1, 2);
-            let procs = (0..k).map(|pi| Proc { direct: rng.chance(1, 4), alias: pi == 1 && rng.chance(1, 2), signals: 0, fail_init: false, soft_ms: 0, delay_us: rng.below(3000), hold_us: rng.below(5000), gates: vec![] }).collect();
+            let procs = (0..k).map(|pi| Proc { grow: if rng.chance(1, 3) { 1 + rng.below(2) as u32 } else { 0 }, done: String::new(), direct: rng.chance(1, 4), alias: pi == 1 && rng.chance(1, 2), signals: 0, fail_init: false, soft_ms: 0, delay_us: rng.below(3000), hold_us: rng.below(5000), gates: vec![] }).collect();
             cases.push(Case { label: format!("{} processes, seeded offsets, existing={}", k, existing), existing, procs });
         }
     }
@@ -455,6 +581,12 @@ pub fn run(ctx: &Ctx) -> Shard {
         }
         if let Some(i) = o.inconclusive {
             shard.inconclusive(i);
+        }
+        if o.verified {
+            shard.count("runs_followed_by_a_final_opener_that_found_everything", 1);
+        }
+        if c.procs.iter().any(|p| p.grow > 0) {
+            shard.count("runs_in_which_a_holder_extended_the_file_with_others_queued", 1);
         }
         shard.count(if c.procs.len() == 2 { "runs_with_2_processes" } else { "runs_with_3_processes" }, 1);
         shard.count(if c.existing { "runs_on_existing_file" } else { "runs_on_file_not_yet_created" }, 1);
